@@ -87,12 +87,13 @@ Example ref_reads_fused :
   env_value [] ref_pfs [(S "A_B", S "1"); (S "AB", S "2")] = Ok [VPtr (VStruct [VPtr (VInt 2); VNil])].
 Proof. vm_compute. reflexivity. Qed.
 
-(* an embedded field shadowed by an outer field of the same name: reflect.StructOf
-   panics on the duplicate flattened name (known-finding class C11/4) *)
+(* an embedded field shadowed by an outer field of the same name: the two
+   flattened fields have one Go name - an error (TranslateType reports it since
+   the repository fix; reflect.StructOf panicked before: former class C11/4) *)
 Definition dup_pfs := ptrify_fields
   (FCons (S "Base") [] true (TStruct (FCons (S "Port") [] false (tint 0 "int") FNil) [])
   (FCons (S "Port") [] false (tint 0 "int") FNil)).
-Example dup_panics : class_of (env_value [] dup_pfs []) = CPanic.
+Example dup_is_error : class_of (env_value [] dup_pfs []) = CErr.
 Proof. vm_compute. reflexivity. Qed.
 
 (* a tag made of separators only names no variable: an error (the pinned code
